@@ -915,8 +915,8 @@ fn main() {
                         specs.push(CaseSpec { shape, style, layout, placed: vec![(s, f)] });
                     }
                 }
-                if thorough && style == 0 && shape == 0 {
-                    // pairs (`///` style, world shape 0 only): two fragments in one slot (both orders) and two fragments in two slots
+                if thorough && style == 0 && shape == 0 && layout == 0 {
+                    // pairs (`///` style, world shape 0, fragments alone in their comment): two fragments in one slot (both orders) and two fragments in two slots
                     for s1 in 0..nslots {
                         for f1 in (0..FRAGMENTS.len()).filter(|f| frag_ok(*f)) {
                             for s2 in s1..nslots {
@@ -1020,7 +1020,7 @@ fn main() {
             "slots": {"shape0": slots(0), "shape1": slots(1)},
             "styles": ["/// lines", "/** block */"],
             "layouts": ["fragment alone", "fragment between two marker lines"],
-            "fragments_per_world": if thorough { "0, 1 (both styles, both shapes) and, for the `///` style on world shape 0, every pair (same slot in both orders, or two different slots)" } else { "0 and 1 (each fragment x each slot)" },
+            "fragments_per_world": if thorough { "0, 1 (both styles, both shapes, both layouts) and, for the `///` style on world shape 0 with the alone layout, every pair (same slot in both orders, or two different slots)" } else { "0 and 1 (each fragment x each slot)" },
             "output_modes": ["w.md + w.html", "--html-in-md"],
         },
         "doc_comments_checked": docs,
